@@ -146,6 +146,10 @@ func (w *world) bookText(c *repCase, cc *concretiser) string {
 	var sb strings.Builder
 	for _, r := range c.Book {
 		sb.WriteString(w.names[r.Name] + ":\n")
+		if cc.rng.Intn(30) == 0 {
+			// a comment of 4 KiB .. 40 KiB inside a recipe (beyond bufio's buffer, within the scanner's limit)
+			sb.WriteString("# " + strings.Repeat("a long comment, 1 ", 240+cc.rng.Intn(2000)) + "\n")
+		}
 		for _, el := range r.Els {
 			sb.WriteString(cc.entryLine(w.names[el[0]], fmtNum(float64(el[1])*w.ua, cc.rng)) + "\n")
 		}
@@ -157,6 +161,9 @@ func (w *world) logText(days []absDay, cc *concretiser) string {
 	var sb strings.Builder
 	for _, d := range days {
 		sb.WriteString(w.dates[d.Date] + ":\n")
+		if cc.rng.Intn(40) == 0 {
+			sb.WriteString("# " + strings.Repeat("a long comment: 1 ", 240+cc.rng.Intn(2000)) + "\n")
+		}
 		for _, e := range d.Es {
 			sb.WriteString(cc.entryLine(w.names[e[0]], w.lit(e[1], 'Q', cc.rng)) + "\n")
 		}
